@@ -1,5 +1,5 @@
 """C03 — the client receives exactly the bytes the application wrote, once and in order (structural / linear clauses)."""
-from vlib import build, model, q, linbound
+from vlib import build, model, q, linbound, lin
 from vlib.lin import Lin, ge
 from vlib.build import AnalysisBroken, REPO
 from rules import C01
@@ -56,9 +56,31 @@ def run(ctx):
     E = linbound.Engine(P, inline_depth=1)
     E.struct_sizes = {FC + '::fcgi_header': 8}
     MAXV = [g for g in P.globals.values() if g['name'].endswith('max_packet_len')]
-    insz = [d['ref'] for i in fo.all_nodes() if fo.N(i)['k'] == 'DeclStmt' for d in fo.N(i)['decls'] if d['name'] == 'in_size']
-    remv = [d['ref'] for i in fo.all_nodes() if fo.N(i)['k'] == 'DeclStmt' for d in fo.N(i)['decls'] if d['name'] == 'reminder']
-    ctx.require(insz and remv, 'C03.R2: in_size / reminder locals not found in fastcgi::format_output')
+    # the full-size record header is a connection member: it must be (re)prepared by the call that sends it.  The block that
+    # prepares it (writes full_header_.request_id) has to be entered on the strength of this invocation's own data only.
+    prep = [w for w in fo.all_nodes() if fo.N(w)['k'] == 'BinaryOperator' and fo.N(w).get('op') == '=' and
+            any(model.strip_targs(r).endswith('fastcgi::full_header_') for r in fo.subtree_refs(fo.N(w)['ch'][0])) and
+            any(model.strip_targs(r).endswith('fcgi_header::request_id') for r in fo.subtree_refs(fo.N(w)['ch'][0]))]
+    ctx.check(len(prep) == 1 and any(model.strip_targs(r).endswith('fastcgi::request_id_') for r in fo.subtree_refs(fo.N(prep[0])['ch'][1])), R2,
+              'format_output:full-header:request-id-from-current-request', 'full_header_.request_id is not set from request_id_', fo.where)
+    lps_ = q.loops(fo)
+    remv = []
+    for L_ in lps_:
+        c_ = fo.N(L_).get('cond', -1)
+        if c_ is not None and c_ >= 0:
+            remv += [r for r in fo.subtree_refs(c_) if r.startswith('v:')]
+    insz = []
+    if prep:
+        gate_if = fo.enclosing(prep[0], ('IfStmt',))
+        crefs = fo.subtree_refs(fo.N(gate_if)['cond']) if gate_if is not None else set()
+        member_state = sorted(r for r in crefs if r.startswith('f:'))
+        ctx.check(gate_if is not None and not member_state, R2, 'format_output:full-header:prepared-on-this-calls-data-only',
+                  'whether the full-size record header is prepared depends on connection state %s left by an earlier request' % member_state, fo.loc(prep[0]))
+        insz = [r for r in crefs if r.startswith('v:') and r not in remv and len(fo.defs_of_var(r)) == 1]
+    ctx.require(remv, 'C03.R2: no record loop in fastcgi::format_output')
+    ctx.check(len(insz) == 1, R2, 'format_output:full-header:total-size-local', 'no per-call total (a local fixed before the record loop) decides the preparation of the full-size header', fo.where)
+    if len(insz) != 1:
+        insz = remv[:1]
 
     def full_header_use(engine, fn, st, node, chain):
         n = fn.N(node)
@@ -255,6 +277,50 @@ def run(ctx):
     ctx.floor(R2, 8)
     ctx.floor(R3, 4)
     ctx.floor(R5, 6)
+    # R8b: `buffer + n` itself (booster::aio::details::advance): skips exactly n bytes and keeps everything after them
+    PB = model.Program(build.extract([REPO + '/src/cgi_api.cpp'], include_re='^/repo/booster/booster/aio/buffer\\.h'))
+    advs = [f for f in PB.fns.values() if f.bname == 'booster::aio::details::advance' and f.entry is not None]
+    ctx.require(advs, 'C03.R8: booster::aio::details::advance is not instantiated by src/cgi_api.cpp')
+    for f in sorted(advs, key=lambda g: g.id)[:2]:
+        tagb = 'const' if 'const_buffer' in f.id else 'mutable'
+        nv_ = q.param_by_index(f, 1)
+        adds = [i for i in f.calls() if q.short_of(f.callee(i)) == 'add' and len(f.args(i)) == 2]
+        part = [i for i in adds if nv_ in f.subtree_refs(i)]
+        whole = [i for i in adds if i not in part]
+        okp = len(part) == 1
+        if okp:
+            a0, a1 = f.args(part[0])
+            S_ = lin.Symb(f)
+            l0, l1 = S_.lin(a0), S_.lin(a1)
+            ptrs = [a for a in l0.atoms() if a.endswith('::ptr') or a.endswith('.ptr') or 'ptr' in a.rsplit('::', 1)[-1]]
+            szs = [a for a in l1.atoms() if 'size' in a.rsplit('::', 1)[-1]]
+            # (ptr + n, size - n) with the same n
+            okp = len(ptrs) == 1 and len(szs) == 1 and (l0 - Lin.atom(ptrs[0]) - Lin.atom(nv_)).key() == Lin.const(0).key() and (l1 - Lin.atom(szs[0]) + Lin.atom(nv_)).key() == Lin.const(0).key()
+        ctx.check(okp, R8, 'advance<%s>:partial-entry-is-(ptr+n,size-n)' % tagb, 'the entry that contains the cut is not re-added as its unsent tail', f.loc(part[0]) if part else f.where)
+        if len(part) == 1:
+            zero = [w for w in q.writes_to(f, nv_) if f.N(w)['k'] == 'BinaryOperator' and f.N(w).get('op') == '=' and f.const_value(f.N(w)['ch'][1]) == 0]
+            brk = [j for j in f.all_nodes() if f.N(j)['k'] in ('BreakStmt',) and q.enclosing_loops(f, j) and q.enclosing_loops(f, part[0]) and q.enclosing_loops(f, j)[0] == q.enclosing_loops(f, part[0])[0]]
+            ctx.check(q.always_after(f, part[0], zero + brk), R8, 'advance<%s>:skipping-stops-after-the-cut' % tagb, 'after the entry containing the cut, later entries are still shortened or dropped (n is not cleared)', f.loc(part[0]))
+
+            def whole_skip(atom, pol):
+                n = f.N(atom)
+                if n['k'] != 'BinaryOperator' or n.get('op') not in ('<=', '>', '<', '>='):
+                    return False
+                l, r = n['ch']
+                ls, rs = any('size' in x.rsplit('::', 1)[-1] for x in f.subtree_refs(l)), any('size' in x.rsplit('::', 1)[-1] for x in f.subtree_refs(r))
+                ln, rn = f.ref_of(l) == nv_, f.ref_of(r) == nv_
+                op = n['op']
+                if rs and ln:
+                    op = {'<=': '>=', '>=': '<=', '<': '>', '>': '<'}[op]
+                elif not (ls and rn):
+                    return False
+                # size <= n is the condition for skipping the whole entry (size == n may go either way: an empty tail is harmless)
+                return (op in ('<=', '<') and pol is False) or (op in ('>', '>=') and pol is True)
+            ctx.check(f.only_through(part[0], f.gate_edges(whole_skip)), R8, 'advance<%s>:partial-only-when-entry-longer-than-n' % tagb, 'an entry is cut although all of it was sent (or the reverse)', f.loc(part[0]))
+            dec = [w for w in q.writes_to(f, nv_) if f.N(w)['k'] == 'CompoundAssignOperator' and f.N(w).get('op') == '-=' and any('size' in x.rsplit('::', 1)[-1] for x in f.subtree_refs(f.N(w)['ch'][1]))]
+            ctx.check(len(dec) == 1 and not f.only_through(dec[0], f.gate_edges(whole_skip)), R8, 'advance<%s>:whole-entry-skip-consumes-its-size' % tagb, 'skipping a fully sent entry does not reduce n by its size', f.where)
+        ctx.check(len(whole) >= 1 and all(not (nv_ in f.subtree_refs(i)) for i in whole) and q.always_before_exit(f, [j for j in f.all_nodes() if f.N(j)['k'] in ('WhileStmt', 'ForStmt') and any(f.contains(j, w_) for w_ in whole)] or whole) if whole else False,
+                  R8, 'advance<%s>:remaining-entries-kept-whole' % tagb, 'entries after the cut are not all kept', f.where)
     ctx.floor(R8, 8)
     ctx.assume('append_pending: the sum of the entry sizes of a const_buffer equals its bytes_count() (booster::aio::const_buffer contract)')
 
